@@ -181,6 +181,8 @@ func StoreContract(t testing.TB, sender util.Uint160, name string, version int) 
 		storeV1 = neotest.CompileSource(t, util.Uint160{}, strings.NewReader(StoreSrc), storeOpts("st"))
 		src2 := StoreSrc + "\n// Version is only present after an update.\nfunc Version() int {\n\treturn 2\n}\n"
 		storeV2 = neotest.CompileSource(t, util.Uint160{}, strings.NewReader(src2), storeOpts("st"))
+		appendAliasProbes(storeV1)
+		appendAliasProbes(storeV2)
 	})
 	base := storeV1
 	if version == 2 {
